@@ -63,7 +63,7 @@ def source_info(get_pymodule: bool = False) -> Optional[SourceInfo]:
     for _ in range(MAX_DEPTH):
         if frame is None:
             return None
-        if frame.f_code.co_filename not in files_to_skip:
+        if frame.f_code.co_filename not in files_to_skip and not in_pydantic(frame):
             # We've got a hit! Return a `SourceInfo` object.
 
             # If requested via the `get_pymodule` flag, return the Python module.
@@ -80,6 +80,13 @@ def source_info(get_pymodule: bool = False) -> Optional[SourceInfo]:
 
     # If we got here without returning, we failed.
     raise RecursionError("Error finding `SourceDetail`")
+
+
+def in_pydantic(frame: FrameType) -> bool:
+    """Boolean indication of whether `frame` is part of `pydantic`.
+    Several of our types are `pydantic.dataclasses`, which run `__post_init__` from inside their generated `__init__`."""
+    modname = frame.f_globals.get("__name__", None) or ""
+    return modname == "pydantic" or modname.startswith("pydantic.")
 
 
 # Set of files to skip
